@@ -751,9 +751,15 @@ def run_real(spec, specs, top):
         sessions.append((sess.path, be))
     recorded = []
 
+    from lemoncheesecake.reporting.report import format_time_as_iso8601, parse_iso8601_time
+
     class Rec(Observer):
         def _after(self, event):
-            recorded.append(R.canon_event(event))
+            ce = R.canon_event(event)
+            # wall-clock stamps are not multiples of a millisecond: the model gets the value the serialiser writes
+            # (`round(ts, 3)` + ISO text; float rounding is C09.time's subject, not this property's)
+            ce["t"] = R._ms(parse_iso8601_time(format_time_as_iso8601(event.time)))
+            recorded.append(ce)
             Observer._after(self, event)
     obs = Rec(report, sessions)
     em.add_listener(obs)
@@ -769,7 +775,9 @@ def run_real(spec, specs, top):
                                 "copies": [{"k": k, "n": n, "load": l} for k, n, l in obs.copies[i]], "final": fin,
                                 "stray": sorted(f for f in os.listdir(os.path.dirname(path)) if f != os.path.basename(path))})
     out["status_after"] = {str(k): v for k, v in obs.status_after.items()}
-    out["final_report"] = R.nf_report(report)
+    # the final report of a real run is compared as it is saved (millisecond text), see above
+    fin0 = out["sessions"][0]["final"]
+    out["final_report"] = fin0["nf"] if fin0 and "nf" in fin0 else R.nf_report(report)
     return recorded, out
 
 
@@ -886,7 +894,8 @@ class Snap(C.Stream):
                     continue
                 # prefix of the final report: the real in-memory report at the end of the stream (normal form);
                 # and of the last file
-                why = nf_prefix(c["load"]["nf"], obs["final_report"])
+                ref_final = final["nf"] if final is not None and "nf" in final else obs["final_report"]
+                why = nf_prefix(c["load"]["nf"], ref_final) if ref_final is not None else []
                 if why:
                     fails.append(C.Failure("C10/snapshot/not-prefix/" + kind,
                                            "%s: the file saved after event %d is not a prefix of the final report: %s"
